@@ -503,6 +503,27 @@ func ruleLoopExitsTearDown(c *Ctx, rule string) {
 			}
 		}
 		c.check(good, rule, w.Short(a.ClientLoop)+": close carries the cause", w.At(call), "non-nil error", "the channel is closed from the loop with an error that may be nil ("+why+"): Err() would report a clean close")
+		// ... and ends the loop function: after the close nothing more is done (no further receive, no use of the frame that
+		// was just found to be missing or malformed)
+		if ci, isCall := call.(*ssa.Call); isCall {
+			again := pathAvoiding(a.ClientLoop, ci, func(in ssa.Instruction) bool {
+				if in == ssa.Instruction(ci) || in.Parent() != a.ClientLoop {
+					return false
+				}
+				switch x := in.(type) {
+				case *ssa.Call:
+					return !strings.HasPrefix(calleeName(x), "builtin.")
+				case *ssa.Go, *ssa.Store, *ssa.Send, *ssa.MapUpdate, *ssa.FieldAddr:
+					return true
+				}
+				return false
+			}, nil)
+			at := w.At(ci)
+			if again != nil {
+				at = w.At(again)
+			}
+			c.check(again == nil, rule, w.Short(a.ClientLoop)+": nothing follows the close", at, "the close is followed by return", "after closing the channel the receive loop function goes on (missing return): it uses a frame that was not received (nil dereference: a peer that closes the carrier before sending settings crashes the process), accepts settings it just rejected, or receives again on a dead tunnel")
+		}
 	}
 	// server
 	sl := a.ServerLoop
@@ -609,6 +630,16 @@ func ruleChannelClose(c *Ctx, rule string) {
 		})
 	}
 	c.check(okCancelAll && rg != nil && !reaches(setFinOrNil(setFin), rg) == false || okCancelAll, rule, name+": cancels every in-flight stream", w.Pos(fn.Pos()), "for _, st := range streams { st.cancel() } (unconditional)", "close does not cancel the context of every stream in the table: in-flight calls on a closed tunnel hang")
+	// ... while the table is still there: the table is dropped only after the loop was entered
+	if rg != nil {
+		emptied := false
+		for _, st := range storesToField(fn, a.ChStreams) {
+			if dominates(st, rg) || (reaches(st, rg) && !reaches(rg, st)) {
+				emptied = true
+			}
+		}
+		c.check(!emptied, rule, name+": cancels the streams before dropping the table", w.At(rg), "the range over the table precedes `streams = nil`", "the stream table is replaced before the loop that cancels its entries runs: the loop sees nothing, no in-flight stream is cancelled, and every call in flight on the closed tunnel hangs")
+	}
 	// deferred channel context cancel on the non-early path
 	var defCancel *ssa.Defer
 	allInstrs(fn, func(in ssa.Instruction) {
@@ -1035,6 +1066,18 @@ func ruleClosePathsReachCarrier(c *Ctx, rule string) {
 		}
 	}
 	c.check(okDone, rule, "Serve pairs wg.Add with a deferred wg.Done on the started path", posOf(w, serve), "addInstance ok -> defer wg.Done() -> serveTunnel", "Serve does not defer wg.Done right after a successful registration: Stop/GracefulStop wait forever, or return early")
+	// what is registered (and half-closed by Stop from another goroutine) is the carrier the tunnel server sends on: the
+	// same, thread-safe, object
+	if addCall != nil && serveCall != nil && len(addCall.Call.Args) >= 2 {
+		same := false
+		reg := origin(addCall.Call.Args[len(addCall.Call.Args)-1])
+		for _, a := range flatArgs(serveCall) {
+			if origin(a) == reg {
+				same = true
+			}
+		}
+		c.check(same, rule, "Serve registers the carrier it serves on", w.At(addCall), "addInstance(stream) and serveTunnel(stream, …) get the same wrapped stream", "the stream registered for Stop is not the (thread-safe) object handed to the tunnel server: Stop's CloseSend runs on the raw gRPC stream concurrently with the tunnel's sends — which gRPC forbids (data race inside the transport)")
+	}
 }
 
 func posOf(w *World, fn *ssa.Function) string {
@@ -1865,6 +1908,25 @@ func ruleInvokeAborts(c *Ctx, rule string) {
 		key := fmt.Sprintf("%s: send-failure return in block %d", w.Short(inv), ret.Block().Index)
 		cn := mustPrecede(ret, isCancel)
 		dr := mustPrecede(ret, isDoneRecv)
+		if cn != nil && dr != nil {
+			okOrder := dominates(cn, dr) || (cn.Block() == dr.Block() && instrIndex(cn) < instrIndex(dr))
+			if cn == dr {
+				// both inside one helper (abort): judged there
+				if h := helperCallee(cn); h != nil {
+					var ci, ri ssa.Instruction
+					allInstrs(h, func(x ssa.Instruction) {
+						if isCancel(x) && ci == nil {
+							ci = x
+						}
+						if isDoneRecv(x) && ri == nil {
+							ri = x
+						}
+					})
+					okOrder = ci != nil && ri != nil && (dominates(ci, ri) || (ci.Block() == ri.Block() && instrIndex(ci) < instrIndex(ri)))
+				}
+			}
+			c.check(okOrder, rule, key+": cancels before it waits", w.At(dr), "cancel-stream precedes the receive from "+done.String(), "Invoke waits for the done signal BEFORE it cancels the stream: nothing has finished the stream yet, so the wait never ends (the call hangs after a send failure)")
+		}
 		c.check(cn != nil && dr != nil, rule, key, w.At(ret), "preceded by cancel-stream and a receive from "+done.String(), "Invoke returns the send error without finishing the stream (cancel-stream: "+fmt.Sprint(cn != nil)+", wait for the done signal: "+fmt.Sprint(dr != nil)+"): the handler, the context watcher and both table entries stay until the caller's context ends (never, for context.Background()), and when the stream is finished later its goroutine writes the caller's grpc.Header / grpc.Trailer variables after Invoke returned — a data race with the application")
 	}
 	c.floor(rule, len(rets), 1, "send-failure returns of Invoke (SendMsg, CloseSend)")
